@@ -73,7 +73,7 @@ theorem handle_setCanceled (c : Cfg) (s : State) (row : Row) (h : Eff.setCancele
     refine ⟨rfl, ?_⟩
     simp only [hm, hCancelWorkflow] at h ⊢
     split at h
-    · simp at h
+    · split at h <;> simp at h
     · rename_i hnc
       simp [hnc]
   | startWorkflow => simp only [hm, hStartWorkflow] at h; (repeat' split at h) <;> simp at h
